@@ -28,20 +28,19 @@ func (server *Server) Set(conn *redis.Conn, key string, val string, opt redis.Se
 
 	var oldVal []byte
 	hasOldRecord := false
-	if opt.NX || opt.GET {
+	if opt.NX || opt.XX || opt.GET {
 		var currRecord *Record
 		currRecord, hasOldRecord = db.GetRecord(key)
-		switch {
-		case opt.NX:
-			if hasOldRecord {
-				return redis.NewIntegerMessage(0), nil
-			}
-		case opt.GET:
-			if hasOldRecord {
-				stringData, ok := currRecord.Data.(string)
-				if ok {
-					oldVal = []byte(stringData)
-				}
+		if opt.NX && hasOldRecord {
+			return redis.NewIntegerMessage(0), nil
+		}
+		if opt.XX && !hasOldRecord {
+			return redis.NewNilMessage(), nil
+		}
+		if opt.GET && hasOldRecord {
+			stringData, ok := currRecord.Data.(string)
+			if ok {
+				oldVal = []byte(stringData)
 			}
 		}
 	}
